@@ -94,6 +94,9 @@ func (g *gate) Read(p []byte) (int, error) {
 func (c11) Run(c *mon.Ctx, i int) {
 	r := c.R
 	wrapper := []string{"flate", "flate", "gzip", "zlib"}[i%4]
+	if i%10 == 7 {
+		wrapper = "flate" // the window-end family below (enumerated by i/10)
+	}
 	d := gen.RandomData(r, 60000)
 	switch i % 8 {
 	case 5:
@@ -142,8 +145,63 @@ func (c11) Run(c *mon.Ctx, i int) {
 		vs = &ValidStream{S: st.W.Bytes(), Plain: st.Plain, Desc: "synth " + fmt.Sprint(st.Desc)}
 		d = gen.Data{Desc: "synth", B: st.Plain}
 	}
+	windowEnd := false
+	if wrapper == "flate" && i%10 == 7 {
+		// the decoder's 64 KiB output window becomes full on the very last symbols
+		// before a flush point or the end of the stream: totals of 65536..65540 and
+		// the same after one or two further 32 KiB refills, the tail Huffman-coded
+		T := r.Pick(65536, 98304+r.Range(0, 4), 131072+r.Range(0, 6)) + r.Range(0, 4)
+		if r.Bool() {
+			// the totals at which the last literal meets the full window exactly
+			T = 65537 + r.Pick(0, 1, 2)*32769
+		}
+		nine := (i / 10) % 8 // how many of the last literals take 9-bit fixed codes: sweeps the final bit alignment
+		fixedFinal := false
+		if idx := (i / 10) % 48; idx < 24 {
+			// enumerated: the three critical totals x the eight bit alignments, final fixed block
+			T, nine, fixedFinal = 65537+(idx/8)*32769, idx%8, true
+		}
+		st := synth.NewStream(r)
+		for left := T - r.Range(3, 40); left > 0; {
+			n := left
+			if n > 65535 {
+				n = r.Range(20000, 65535)
+			}
+			st.Stored(false, r.Bytes(n))
+			left -= n
+		}
+		var toks []synth.Token
+		for len(st.Plain)+len(toks) < T {
+			toks = append(toks, synth.Lit(byte(r.Intn(144)))) // 8-bit fixed codes
+		}
+		for k := 0; k < nine && k < len(toks); k++ {
+			toks[len(toks)-1-k] = synth.Lit(byte(144 + r.Intn(112))) // 9-bit fixed codes
+		}
+		atFlush := r.Bool() && !fixedFinal
+		if r.Bool() || fixedFinal {
+			st.Fixed(!atFlush, toks, true)
+		} else {
+			lit, dist := synth.LengthsFor(r, toks, synth.CodeOpts{MaxLit: r.Range(3, 9)})
+			sp := synth.NewDynSpec()
+			sp.LitLens, sp.DistLens = lit, dist
+			st.Dynamic(!atFlush, toks, sp, true)
+		}
+		vs = &ValidStream{Desc: fmt.Sprintf("synth window-end T=%d flush=%v", T, atFlush)}
+		if atFlush {
+			st.Stored(false, nil) // sync marker
+			vs.FlushEnds = []int{len(st.W.Bytes())}
+			vs.PlainAt = []int{len(st.Plain)}
+			st.Fixed(true, synth.RandomTokens(r, len(st.Plain), r.Range(1, 50), "lits"), true)
+		}
+		vs.S, vs.Plain = st.W.Bytes(), st.Plain
+		d = gen.Data{Desc: "synth", B: st.Plain}
+		windowEnd = true
+	}
 	// choose prefix
 	pi := r.Intn(len(vs.FlushEnds) + 1)
+	if windowEnd {
+		pi = 0 // the flush point when there is one, else the stream end
+	}
 	var prefix []byte
 	var expect []byte
 	atEnd := false
@@ -181,7 +239,11 @@ func (c11) Run(c *mon.Ctx, i int) {
 		src = bufioOf(g, 16)
 	}
 	needEOF := atEnd && !(wrapper == "gzip" && multistream)
-	sizes := gen.ReadSizes(gen.New(r.U64()), gen.ReadStyles[2+r.Intn(5)])
+	rstyle := gen.ReadStyles[2+r.Intn(5)]
+	if windowEnd || r.Chance(1, 6) {
+		rstyle = []string{"128k", "64k", "random", "128k"}[r.Intn(4)]
+	}
+	sizes := gen.ReadSizes(gen.New(r.U64()), rstyle)
 
 	type result struct {
 		got    []byte
@@ -215,14 +277,16 @@ func (c11) Run(c *mon.Ctx, i int) {
 				rd = z
 			}
 			zeros := 0
+			var rbuf []byte
 			for {
 				if len(res.got) >= len(expect) && !needEOF {
 					return
 				}
 				n := sizes()
-				// never ask for more than is expected, so that a correct
-				// reader is not invited to look further
-				p := make([]byte, n)
+				if n > len(rbuf) {
+					rbuf = make([]byte, n)
+				}
+				p := rbuf[:n]
 				k, e := rd.Read(p)
 				res.got = append(res.got, p[:k]...)
 				atomic.AddInt64(&received, int64(k))
@@ -295,6 +359,13 @@ func (c11) Run(c *mon.Ctx, i int) {
 	}
 	if stamp < 0 && len(res.got) < len(expect) {
 		c.Violate("short-without-demand|"+where, fmt.Sprintf("reader stopped after %d of %d bytes with %v without asking for more input", len(res.got), len(expect), res.err), desc)
+		return
+	}
+	if needEOF && stamp >= 0 {
+		// io.EOF was due without any further input: asking the source at all
+		// (before returning it) is the violation, even if the source's answer
+		// then let the Reader finish
+		c.Violate("over-demand-before-eof|"+where, fmt.Sprintf("%s reader had delivered all %d bytes of a complete stream but asked its source for more input before returning io.EOF (source then: %s; Read finally returned: eof=%v err=%v)", wrapper, len(expect), after, res.sawEOF, res.err), desc)
 		return
 	}
 	if needEOF && !res.sawEOF {
